@@ -19,6 +19,7 @@ X_Zero   == { <<0, 1>> }
 X_Few    == { <<0, 1>>, <<1, 4>> }
 X_Signed == { <<0, 1>>, <<1, 4>>, <<-1, 4>>, <<1, 2>> }
 D_Few    == { <<1, 8>>, <<-1, 8>> }
+D_One    == { <<1, 8>> }
 D_Many   == { <<1, 8>>, <<-1, 8>>, <<1, 16>>, <<-1, 5>> }
 F_Few    == { <<2, 1>>, <<1, 2>> }
 F_Many   == { <<2, 1>>, <<1, 2>>, <<3, 2>>, <<9, 10>> }
@@ -26,6 +27,7 @@ S_Few    == { <<1, 4>> }
 S_Many   == { <<1, 4>>, <<-1, 8>>, <<1, 50>> }
 K_All    == {"none", "extent", "scale", "shift0"}
 K_None   == {"none"}
+K_Two    == {"none", "extent"}
 N_All    == {"Lin", "Log", "Square", "LinRel", "LinTanh"}
 N_Lin    == {"Lin"}
 N_Three  == {"Lin", "Log", "Square"}
